@@ -91,6 +91,7 @@ def outcomeToJson : Outcome → Json
   | .forbidden => jStr "forbidden"
   | .dsError => jStr "ds_error"
   | .internalError => jStr "internal_error"
+  | .badRequest => jStr "bad_request"
 
 def outcomeFromStr : String → Except String Outcome
   | "served" => return .served
@@ -98,6 +99,7 @@ def outcomeFromStr : String → Except String Outcome
   | "forbidden" => return .forbidden
   | "ds_error" => return .dsError
   | "internal_error" => return .internalError
+  | "bad_request" => return .badRequest
   | s => throw s!"bad outcome {s}"
 
 def effectsToJson (e : Effects) : Json := Json.mkObj [
@@ -195,7 +197,8 @@ def handle : Op := fun j => do
   let (o, e, ex, restricted, dsFails) ← match kind with
     | "sqlite" => do
       let cfg : SqliteCfg := { keyPath := keyPath, listCfg := listCfg }
-      let r := decideSqlite P cfg data client
+      let bodyOk := (getBool j "body_ok").toOption.getD true
+      let r := decideSqlite P cfg data client bodyOk
       let ex := if cfg.keyPath.isSome && data.isNone then Expected.unrestricted else expectedSqlite cfg data
       pure (r.1, r.2, ex, cfg.restricted, cfg.keyPath.isSome && data.isNone)
     | "file" => do
